@@ -817,10 +817,47 @@ Definition VSsizeof_stmts_modelled : list string :=
    "totalsize += vs->wlist.esize[j];";
    "if (!strcmp(av[i], vs->wlist.name[j]))";
    "totalsize += vs->wlist.esize[j];"].
+Definition VSfexist_stmts_modelled : list string :=
+  ["}";
+   "}";
+   "}";
+   "}";
+   "}";
+   "for (i = 0; i < ac; i++)";
+   "found = 0;";
+   "for (j = 0; j < w->n; j++)";
+   "found = 1;";
+   "}";
+   "}";
+   "if (!found) do { ret_value = (-1);";
+   "}";
+   "}"].
+Definition VSfdefine_stmts_modelled : list string :=
+  ["}";
+   "}";
+   "}";
+   "}";
+   "}";
+   "if (!strcmp(av[0], vs->usym[j].name)) {";
+   "replacesym = 1;";
+   "}";
+   "if (replacesym)";
+   "else {";
+   "}";
+   "}";
+   "else {";
+   "}";
+   "}";
+   "}";
+   "vs->usym[usymid].isize = (uint16)isize;";
+   "}";
+   "vs->usym[usymid].type = (int16)localtype;";
+   "vs->usym[usymid].order = (uint16)order;"].
 Local Close Scope string_scope.
 Lemma model_follows_source_lemma :
   VSwrite_skeleton = VSwrite_skeleton_modelled /\ VSread_skeleton = VSread_skeleton_modelled /\
   vpackvs_order = vpackvs_order_modelled /\ vunpackvs_order = vunpackvs_order_modelled /\
   VSsetname_len_stmts = VSsetname_len_stmts_modelled /\ VSsetclass_len_stmts = VSsetclass_len_stmts_modelled /\
-  VSsizeof_stmts = VSsizeof_stmts_modelled.
+  VSsizeof_stmts = VSsizeof_stmts_modelled /\ VSfexist_stmts = VSfexist_stmts_modelled /\
+  VSfdefine_stmts = VSfdefine_stmts_modelled.
 Proof. repeat split; reflexivity. Qed.
